@@ -101,6 +101,25 @@ Theorem expired_forgotten :
 Proof. exact (expired_forgotten_s eq_refl eq_refl eq_refl eq_refl). Qed.
 Print Assumptions expired_forgotten.
 
+(* the model's table finds waiters by key equality; the real table is a HashMap, which finds a stored
+   key only if it also hashes like the probe. With the hash confined to the identifier and sequence
+   number the two agree for every pair of keys: a quotation that carries only a prefix of the request's
+   data (ICMP errors, truncated replies) still finds the waiter *)
+Theorem hashmap_lookup_is_key_equality :
+  forall stored probe, waiter_found ECHO_HASH_OF_ID_AND_SEQ stored probe = echo_eq stored probe.
+Proof.
+  intros [[i1 s1] d1] [[i2 s2] d2]. change ECHO_HASH_OF_ID_AND_SEQ with true.
+  unfold waiter_found, echo_hashed, key_same, echo_eq. cbn [list_eqb].
+  destruct (N.eqb i1 i2); destruct (N.eqb s1 s2); cbn [andb];
+    repeat rewrite Bool.andb_true_r; repeat rewrite Bool.andb_false_r; reflexivity.
+Qed.
+Print Assumptions hashmap_lookup_is_key_equality.
+
+(* with the data hashed as well, a truncated quotation misses its waiter *)
+Example ex_hash_of_data_loses_truncated_quotations :
+  waiter_found false (7, 1, [1; 2; 3]) (7, 1, []) = false /\ echo_eq (7, 1, [1; 2; 3]) (7, 1, []) = true.
+Proof. split; reflexivity. Qed.
+
 (* the request is on the wire only after its waiter exists (WSend then WPacket is the only order) *)
 Theorem waiter_registered_before_send : WAITER_REGISTERED_BEFORE_SEND = true.
 Proof. exact eq_refl. Qed.
